@@ -30,7 +30,7 @@ def table(ctx):
     qs = sorted({Fraction(k, 2) for k in range(-13, 22)} | {Fraction(7, 3), Fraction(-5, 3), Fraction(29, 4)})
     c = dict(Grids=RawTla("{" + ", ".join("[x |-> %s, y |-> %s]" % (tlcmod.tla(g["x"]), tlcmod.tla(g["y"])) for g in GRIDS) + "}"),
              Queries=RawTla("{" + ", ".join("<<%d, %d>>" % (q.numerator, q.denominator) for q in qs) + "}"),
-             Extraps={"nan", "const", "bound", "mirror", "periodic"}, YModes={"init", "call", "both", "none"})
+             Extraps={"nan", "const", "const0", "constneg", "bound", "mirror", "periodic"}, YModes={"init", "call", "both", "none"})
     t, cf = tlcmod.gen_mc(ctx.work, "InterpCfg", "MC_Interp", c, invariants=["MappedInside", "HitsSamples", "Between"])
     dot = os.path.join(ctx.work, "ic.dot")
     ctx.model_check(t, cf, workers=8, dump_dot=dot, label="interpolation case table", timeout=600)
@@ -46,7 +46,9 @@ def fr(p):
 def call_interp(method, g, q, extrap, ymode, many, **kw):
     x = torch.tensor(g["x"], dtype=DT)
     y = torch.tensor(g["y"], dtype=DT)
-    ex = {"nan": "nan", "const": 7.0}.get(extrap, extrap)
+    # the constant zero in its accepted forms (python int / float, one-element tensor), a negative tensor constant
+    zero = [0, 0.0, torch.tensor(0.0, dtype=DT), torch.zeros(1, dtype=DT)][(len(g["x"]) + (2 if many else 0) + (1 if ymode == "call" else 0)) % 4]
+    ex = {"nan": "nan", "const": 7.0, "const0": zero, "constneg": torch.tensor(-3.0, dtype=DT)}.get(extrap, extrap)
     # the real query vector: the probed point first, padded with inside points to select the evaluation formula
     pad = torch.linspace(float(x[0]), float(x[-1]), len(g["x"]) + 3, dtype=DT) if many else torch.tensor([], dtype=DT)
     xq = torch.cat([torch.tensor([float(q)], dtype=DT), pad])
@@ -108,6 +110,22 @@ def run(ctx):
                 ctx.violation("interp/linear/%s/%s" % (extrap if pred["cls"] != "raise" else "no-y", "formulaB" if many else "formulaA"),
                               "Interp1D linear x=%s y=%s q=%s extrap=%s y-mode=%s (%s queries than samples): %s"
                               % (g["x"], g["y"], q, extrap, ymode, "more" if many else "fewer", why), {"g": g, "q": str(q), "extrap": extrap, "ymode": ymode})
+        # cubic spline: padding classes (nan / constants) outside the range
+        if ymode in ("init", "call") and pred["cls"] in ("nan", "const") and len(g["x"]) >= 4:
+            for bc in ("natural", "clamped", "not-a-knot", "periodic"):
+                n += 1
+                ctx.case(key=("cspline-pad", tuple(g["x"]), str(q), extrap, bc, ymode))
+                gp = dict(g) if bc != "periodic" else {"x": g["x"], "y": g["y"][:-1] + [g["y"][0]]}
+                try:
+                    a, _ = call_interp("cspline", gp, q, extrap, ymode, False, bc_type=bc)
+                    v = float(a[0])
+                    good = math.isnan(v) if pred["cls"] == "nan" else (v == float(fr(pred["v"])))
+                    if not good:
+                        ctx.violation("interp/cspline/pad-%s" % extrap, "cspline(%s) x=%s q=%s (outside) extrap=%s y-mode=%s gives %r, specification %s"
+                                      % (bc, gp["x"], q, extrap, ymode, v, "nan" if pred["cls"] == "nan" else fr(pred["v"])), {"g": gp, "q": str(q), "extrap": extrap})
+                except Exception as e:
+                    ctx.violation("interp/cspline/pad-%s/raise" % extrap, "cspline(%s) x=%s q=%s extrap=%s raised %s: %s" % (bc, gp["x"], q, extrap, type(e).__name__, str(e)[:100]),
+                                  {"g": gp, "q": str(q)})
         # cubic spline with the position maps of the specification
         if ymode == "init" and extrap in ("bound", "mirror", "periodic") and pred["cls"] == "value" and fr(pred["pos"]) != q:
             for bc in (("natural", "clamped") if not thorough else ("natural", "clamped", "not-a-knot")):
